@@ -26,6 +26,16 @@ package controllerv1
 //@     invariant rangeindex >= -1 && rangeindex + 1 <= len(s.Points) && inPoints(stream, rangeindex + 1) && stream.g_numCount == rangeindex + 1
 //@     invariant forall k int :: 0 <= k && k <= rangeindex ==> stream.g_nums[k] == real(s.Points[k].T) / 1000
 //@     modifies stream.g_state, stream.g_kind, stream.g_depth, stream.g_nums, stream.g_numCount
+//@   replay:
+//@     import "net/http/httptest"
+//@     import "strings"
+//@     import "github.com/prometheus/prometheus/model/labels"
+//@     import "github.com/prometheus/prometheus/promql"
+//@     go: rec := httptest.NewRecorder()
+//@     go: m := promql.Matrix{promql.Series{Metric: labels.FromStrings("a", "b"), Points: []promql.Point{{T: 1500, V: 1}, {T: 2000, V: 2}}}}
+//@     go: if err := writeMatrix(&promql.Result{Value: m}, rec); err != nil { panic(err) }
+//@     go: if body := rec.Body.String(); !strings.Contains(body, `[1.5,"1"]`) { confirm("a point at 1500 ms is not rendered as 1.5 s: " + body) }
+//@   end
 
 //@ func writeVector [C15]
 //@   flag checks=-assert
